@@ -381,7 +381,7 @@ inline SaStats check_sa_formula(const Csr<double> &A, const std::vector<char> &s
 }
 
 // Ruge-Stuben: interpolation rows of zero-row-sum rows that have a strong (= negative off-diagonal) neighbour sum to one.
-struct RsStats { long rowsum_rows = 0, boundary_rows = 0, empty_rows = 0; };
+struct RsStats { long rowsum_rows = 0, boundary_rows = 0, empty_rows = 0, mixed_rows = 0; }; // mixed_rows: asserted rows that also have positive couplings
 
 inline RsStats check_rs_rowsum(const Csr<double> &A, const Csr<double> &P, bool do_trunc, float eps_strong, float eps_trunc, const std::string &what) {
     RsStats rs;
@@ -411,6 +411,7 @@ inline RsStats check_rs_rowsum(const Csr<double> &A, const Csr<double> &P, bool 
         VF_REQUIRE(std::abs(ps - 1) <= tol, what << ": row " << i << " has zero row sum and a strong neighbour but its interpolation weights sum to " << static_cast<double>(ps)
                    << " (do_trunc=" << do_trunc << " eps_trunc=" << eps_trunc << ", |err| " << static_cast<double>(std::abs(ps - 1)) << " > " << static_cast<double>(tol) << ")");
         ++rs.rowsum_rows;
+        if (b_num > 0 && plen > 0 && !(plen == 1 && P.val[P.ptr[i]] == 1.0)) ++rs.mixed_rows; // positive couplings lumped into the diagonal of an interpolated row
     }
     return rs;
 }
@@ -446,15 +447,20 @@ inline void require_lifted_bitwise(const Csr<double> &Pb, const Csr<double> &P, 
 // energy-minimising smoothed aggregation: rounding model of  P = P_t - D^-1 A_F P_t Omega,  R = P_t^T - Omega P_t^T A_F D^-1,
 // omega_c = <(A_F P_t)_c, (A_F D^-1 A_F P_t)_c> / ||(A_F D^-1 A_F P_t)_c||^2  -> entrywise tolerances for comparing two evaluations
 struct EminModel {
-    bool degenerate = false;        // zero filtered diagonal or vanishing denominator: the formula is undefined
+    // the rounding model cannot bound the difference of two evaluations: a filtered diagonal or an omega denominator is pure
+    // rounding noise (a sum that cancels to rounding level), so its value depends on the summation order
+    bool unmodelled = false;
+    bool guarded = false;           // an exactly vanishing filtered diagonal / denominator occurs (library convention: no smoothing contribution, omega = 0)
     LMat tolP, tolR;                // tolP[i][c], tolR[c][i]
 };
 
-inline EminModel emin_model(const Csr<double> &A, const std::vector<char> &strong, const Csr<double> &Pt) {
+// `exact`: integer / dyadic values, every sum below is exact in double as well, so "exactly zero" means the same thing in the
+// library and here.  Otherwise a vanishing sum is indistinguishable from rounding noise and the case is left unmodelled.
+inline EminModel emin_model(const Csr<double> &A, const std::vector<char> &strong, const Csr<double> &Pt, bool exact) {
     EminModel em;
     ptrdiff_t n = A.n, nc = Pt.m;
     LMat Af(n), pt = lmat(Pt);
-    std::vector<ld> D(n, 0);
+    std::vector<ld> D(n, 0), dinv(n, 0);
     ld condmax = 1;
     for (ptrdiff_t i = 0; i < n; ++i) {
         for (ptrdiff_t j = A.ptr[i]; j < A.ptr[i + 1]; ++j) {
@@ -462,19 +468,21 @@ inline EminModel emin_model(const Csr<double> &A, const std::vector<char> &stron
         }
         Af[i][i] = D[i];
         ld dabs = 0; for (ptrdiff_t j = A.ptr[i]; j < A.ptr[i + 1]; ++j) if (A.col[j] == i || !strong[j]) dabs += std::abs(static_cast<ld>(A.val[j]));
-        if (std::abs(D[i]) <= 4 * (A.ptr[i + 1] - A.ptr[i] + 1) * U * dabs) { em.degenerate = true; return em; }
+        if (D[i] == 0 && exact) { em.guarded = true; dinv[i] = 0; continue; }   // guarded: the row/column takes no part in the smoothing
+        if (std::abs(D[i]) <= 4 * (A.ptr[i + 1] - A.ptr[i] + 1) * U * dabs) { em.unmodelled = true; return em; }
+        dinv[i] = 1 / D[i];
         condmax = std::max(condmax, dabs / std::abs(D[i])); // the filtered diagonal is a sum that may cancel: relative error ~ cond * u
     }
-    auto mul = [&](const LMat &X, const LMat &Y, bool absval, const std::vector<ld> *dinv_cols) {
+    auto mul = [&](const LMat &X, const LMat &Y, bool absval, bool with_dinv) {
         LMat Z(X.size());
         for (size_t i = 0; i < X.size(); ++i) for (auto &a : X[i]) {
-            ld f = a.second; if (dinv_cols) f /= (*dinv_cols)[a.first]; if (absval) f = std::abs(f);
+            ld f = a.second; if (with_dinv) f *= dinv[a.first]; if (absval) f = std::abs(f);
             for (auto &y : Y[a.first]) Z[i][y.first] += absval ? f * std::abs(y.second) : f * y.second;
         }
         return Z;
     };
-    LMat AP = mul(Af, pt, false, nullptr), APa = mul(Af, pt, true, nullptr);
-    LMat ADAP = mul(Af, AP, false, &D), ADAPa = mul(Af, APa, true, &D);
+    LMat AP = mul(Af, pt, false, false), APa = mul(Af, pt, true, false);
+    LMat ADAP = mul(Af, AP, false, true), ADAPa = mul(Af, APa, true, true);
     std::vector<ld> num(nc, 0), den(nc, 0), NA(nc, 0), DA(nc, 0);
     for (ptrdiff_t i = 0; i < n; ++i) {
         for (auto &kv : ADAP[i]) { den[kv.first] += kv.second * kv.second; auto it = AP[i].find(kv.first); if (it != AP[i].end()) num[kv.first] += it->second * kv.second; }
@@ -483,20 +491,21 @@ inline EminModel emin_model(const Csr<double> &A, const std::vector<char> &stron
     ld g = 8 * (n + 8) * U * condmax;
     std::vector<ld> om(nc), dom(nc);
     for (ptrdiff_t c = 0; c < nc; ++c) {
-        if (den[c] == 0 || DA[c] * g >= den[c]) { em.degenerate = true; return em; }
+        if (den[c] == 0 && exact) { em.guarded = true; om[c] = 0; dom[c] = 0; continue; }   // guarded: omega_c = 0
+        if (den[c] == 0 || DA[c] * g >= den[c]) { em.unmodelled = true; return em; }
         om[c] = num[c] / den[c];
         dom[c] = g * (NA[c] / den[c] + std::abs(om[c]) * DA[c] / den[c]);
     }
     em.tolP.assign(n, LRow()); em.tolR.assign(nc, LRow());
     for (ptrdiff_t i = 0; i < n; ++i) {
-        ld di = 1 / std::abs(D[i]);
+        ld di = std::abs(dinv[i]);
         for (auto &kv : APa[i]) em.tolP[i][kv.first] = g * di * kv.second * std::abs(om[kv.first]) + di * kv.second * dom[kv.first];
         for (auto &kv : pt[i]) em.tolP[i][kv.first] += g * std::abs(kv.second);
     }
     // R(c,i): (P_t^T A_F)(c,i) / D_i * omega_c
     for (ptrdiff_t k = 0; k < n; ++k) for (auto &p : pt[k]) for (auto &a : Af[k]) {
         ptrdiff_t c = p.first, i = a.first;
-        ld m = std::abs(p.second * a.second) / std::abs(D[i]);
+        ld m = std::abs(p.second * a.second) * std::abs(dinv[i]);
         em.tolR[c][i] += g * m * std::abs(om[c]) + m * dom[c];
     }
     for (ptrdiff_t i = 0; i < n; ++i) for (auto &kv : pt[i]) em.tolR[kv.first][i] += g * std::abs(kv.second);
@@ -515,6 +524,7 @@ inline ld require_lifted_within(const Csr<double> &Xb, const Csr<double> &X, int
         ptrdiff_t i = kv.first.first / b, c = kv.first.second / b;
         auto tt = tol[i].find(c);
         ld tl = 2 * (tt == tol[i].end() ? 0 : tt->second);
+        VF_REQUIRE(std::isfinite(it->second) && std::isfinite(kv.second), what << ": non-finite entry (" << kv.first.first << "," << kv.first.second << "): lifted " << it->second << ", scalar " << kv.second);
         ld err = std::abs(static_cast<ld>(it->second) - static_cast<ld>(kv.second));
         if (tl > 0) worst = std::max(worst, err / tl);
         VF_REQUIRE(err <= tl, what << ": entry (" << kv.first.first << "," << kv.first.second << ") = " << it->second << ", scalar coarsening lifted gives " << kv.second << " (|diff| " << static_cast<double>(err) << " > " << static_cast<double>(tl) << ")");
